@@ -51,6 +51,10 @@ def run(ctx):
     def find_sub(t, suffix):
         return [s for s in subterms(t) if isinstance(s, tuple) and s and s[0] == "call" and s[1].endswith(suffix)]
 
+    for bi, t in b.calls(exact="fundamental_group::trace_word"):
+        every_iteration_reaches(ctx, "T3-no-skipped-orbit", b, bi, "orbit-loop->trace_word", "some 2-orbit representative is skipped: its relator / cone is missing")
+    for bi, t in b.calls(exact="dsets::DSet::orbit_reps_2d"):
+        every_iteration_reaches(ctx, "T3-no-skipped-orbit", b, bi, "index-loop->orbit_reps_2d", "some index pair is skipped: its relators are missing")
     # (3) relators
     ctx.clauses.append("relators: word^degree of the traced 2-orbit word, empty ones dropped (T3)")
     rel_word = rel_deg = None
